@@ -81,7 +81,7 @@ def run(chk):
                 'find_all / find / count / attribute access / list-of-names are compared with them for every root and query '
                 '(results identified by source offset, compared as multisets). A case is a document.')
     sc = [('docs', {'Budget': 3 if quick else 4}),
-          ('nested', {'Budget': 4 if quick else 5, 'TextPool': ['t', ' '], 'ComPool': [], 'MathKinds': ['$', '\\['], 'MEnvNames': ['equation'],
+          ('nested', {'Budget': 4, 'TextPool': ['t', ' '], 'ComPool': [], 'MathKinds': ['$', '\\['], 'MEnvNames': ['equation'],
                       'VerbNames': [], 'Leaves': [], 'CmdNames': ['a', 'a*', 'text'], 'EnvNames': ['e'], 'Labels': [''], 'MaxSib': 2, 'MaxDepth': 4, 'MaxArgs': 2}),
           ('envarg-deep', {'Budget': 6, 'TextPool': [], 'ComPool': [], 'MathKinds': [], 'MEnvNames': [], 'VerbNames': [], 'Leaves': [], 'CmdNames': ['a', 'b*'],
                            'EnvNames': ['e'], 'ListNames': ['itemize'], 'Labels': ['', 'l'], 'MaxSib': 1, 'MaxDepth': 6, 'MaxArgs': 1})]
